@@ -34,6 +34,10 @@ def lockstep_cases(repo):
                 if code in (222, 223, 224, 225, 232, 235, 236, 237) and operand == 5:
                     continue
                 so = {'nbits_of_associated': list(al), 'next_bitmapped_descriptor': nb()}
+                if code == 237:
+                    # a bitmap has been defined for reuse (236000) over one element: 237000 without one is refused, rightly
+                    so.update({'bitmap': [0], 'back_referenced_descriptors': [(0, element(12101))], 'bitmapped_descriptors': [(0, element(12101))],
+                               'most_recent_bitmap_is_for_reuse': True})
                 if code == 204 and operand == 0 and not assoc:
                     so['nbits_of_associated'] = [4]
                 wo = {'nbits_associated_list': list(so['nbits_of_associated'])}
